@@ -24,28 +24,37 @@ def _first(kind: str):
 
 
 def _msgs(b):
+    if b.get('absent'):
+        return None
     return [(m['uid'], frozenset(m['flags']), m['date'], m['cid'], m['recent']) for m in b['msgs']]
 
 
 def monitor(ctx, kind: str, init, sts) -> None:
-    """dump-equality monitor + refusals, from the observed behaviour only"""
-    if not sts or sts[0]['out']['cond'] != 'OK':
+    """dump-equality monitor + refusals, from the observed behaviour only.  Steps made by
+    another connection ('ext') may change anything; every step of the session under test
+    is compared with the dump taken just before it."""
+    cmds = [s for s in sts if 'cmd' in s]
+    if not cmds or cmds[0]['out']['cond'] != 'OK' or 'cmd' not in sts[0]:
         return
     names = R.NAMES[kind]
     before = {b['name']: b for b in init}
-    ro_box = {b['name']: b['ro'] for b in init}
-    selected = names[sts[0]['cmd']['box']]
+    ro_box = {b['name']: b.get('ro', False) for b in init}
     in_sel = True
     prev = {b['name']: b for b in sts[0]['dump']}
+    interfered = False
     # the SELECT/EXAMINE itself must change nothing (no \Recent claimed)
     for name, b in prev.items():
-        if _msgs(b) != _msgs(before[name]) or b['maxuid'] != before[name]['maxuid']:
+        if _msgs(b) != _msgs(before[name]) or b.get('maxuid') != before[name].get('maxuid'):
             ctx.failure('unchanged', f'{kind}: entering the read-only selection changed {name}',
                         C10._replay_obj(kind, init, sts[:1], 0), {'kind': 'select_changed', 'backend': kind})
     for k, st in enumerate(sts[1:], 1):
+        now = {b['name']: b for b in st['dump']}
+        if 'ext' in st:
+            interfered = True
+            prev = now
+            continue
         cmd, out = st['cmd'], st['out']
         kk = cmd['k']
-        now = {b['name']: b for b in st['dump']}
         dest = names[cmd['dest']] if kk in ('copy', 'move') else \
             names[cmd['box']] if kk == 'append' else None
 
@@ -56,8 +65,13 @@ def monitor(ctx, kind: str, init, sts) -> None:
         for name, b in now.items():
             old = _msgs(prev[name])
             new = _msgs(b)
+            if old is None or new is None:
+                if old != new:
+                    fail('unchanged', f'{kk}_mailbox_set', f'mailbox {name} appeared or disappeared')
+                continue
             may_grow = (kk in ('append', 'copy') and dest == name and not ro_box[name]
                         and out['cond'] == 'OK')
+            may_use_uids = kk == 'append' and dest == name and not ro_box[name]   # failed MULTIAPPEND
             if new[:len(old)] != old:
                 fail('unchanged', f'{kk}_changed_existing', f'existing messages of {name} changed')
             elif len(new) > len(old) and not may_grow:
@@ -65,8 +79,10 @@ def monitor(ctx, kind: str, init, sts) -> None:
             elif any(u <= prev[name]['maxuid'] for u, *_ in new[len(old):]):
                 fail('unchanged', f'{kk}_uid_reused', f'delivered message reuses a UID in {name}')
             if b['maxuid'] < prev[name]['maxuid'] or (b['maxuid'] != prev[name]['maxuid']
-                                                      and not may_grow):
+                                                      and not (may_grow or may_use_uids)):
                 fail('unchanged', f'{kk}_uidnext', f'UID counter of {name} changed')
+            if b['uidv'] != prev[name]['uidv']:
+                fail('unchanged', f'{kk}_uidvalidity', f'UIDVALIDITY of {name} changed')
         # ---- refusals
         if in_sel and kk in ('store', 'expunge', 'move') and \
                 (out['cond'], out['code']) != ('NO', ('READ-ONLY',)):
@@ -74,23 +90,25 @@ def monitor(ctx, kind: str, init, sts) -> None:
         if dest is not None and dest in ro_box and ro_box[dest] and (in_sel or kk == 'append') and \
                 (out['cond'], out['code']) != ('NO', ('READ-ONLY',)):
             fail('ro_refused', f'{kk}_into_readonly', f'answered {out["cond"]} {out["code"]}')
-        if in_sel and kk == 'fetch' and out['cond'] != 'OK':
-            fail('unchanged', 'fetch_failed', f'answered {out["cond"]}')
+        if in_sel and kk in ('fetch', 'search', 'noop', 'check') and out['cond'] != 'OK':
+            fail('unchanged', f'{kk}_failed', f'answered {out["cond"]}')
         if kk == 'close':
             if in_sel and (out['cond'], out['untagged']) != ('OK', []):
                 fail('ro_close_ok', 'close_refused_readonly', f'answered {out["cond"]} {out["code"]}')
             in_sel = False
-        elif not in_sel and kk != 'append' and out['cond'] != 'BAD':
+        elif not in_sel and kk not in ('append', 'status', 'noop') and out['cond'] != 'BAD':
             fail('ro_close_ok', 'still_selected_after_close', f'{kk} answered {out["cond"]}')
+        if out['cond'] == 'BYE':
+            in_sel = False
         prev = now
-    # ---- strict form: if no destination was writable, the final dump is the initial one
+    # ---- strict form: no writable destination and nobody else writing -> the initial dump
     writable_dest = any((s['cmd']['k'] in ('append', 'copy', 'move')) and
                         not ro_box.get(names[s['cmd'].get('dest', s['cmd'].get('box'))], True)
-                        for s in sts[1:])
-    if not writable_dest:
+                        for s in cmds[1:])
+    if not writable_dest and not interfered:
         last = {b['name']: b for b in sts[-1]['dump']}
         for name, b in last.items():
-            if _msgs(b) != _msgs(before[name]) or b['maxuid'] != before[name]['maxuid']:
+            if _msgs(b) != _msgs(before[name]) or b.get('maxuid') != before[name].get('maxuid'):
                 ctx.failure('unchanged', f'{kind}: {name} differs after a program without writable '
                             'destination', C10._replay_obj(kind, init, sts, len(sts) - 1),
                             {'kind': 'final_dump_differs', 'backend': kind})
@@ -106,7 +124,7 @@ async def final_rw_select(env, init, sts):
     await env.conn.send(b'z0 LOGOUT\r\n')          # the session under test is gone
     last = {b['name']: b for b in sts[-1]['dump']}
     for name, b in last.items():
-        if b['ro']:
+        if b.get('absent') or b['ro']:
             continue
         r = await env.probe.send(b'z1 SELECT ' + name.encode() + b'\r\n')
         r2 = await env.probe.send(b'z2 UID FETCH 1:* (UID FLAGS)\r\n')
@@ -145,6 +163,10 @@ def run(ctx) -> None:
         C10.run_programs(ctx, f'ro_programs_{kind}', [(kind, n, 13)], R.C12_WEIGHTS,
                          first=_first(kind), final=final_rw_select,
                          observer=lambda i: i % 2 == 1,
+                         on_program=lambda k, init, sts: monitor(ctx, k, init, sts))
+        # the same with another connection writing in between (labels LExt of the model)
+        C10.run_programs(ctx, f'ro_interference_{kind}', [(kind, max(n // 3, 10), 13)], R.C12_WEIGHTS,
+                         first=_first(kind), final=final_rw_select, interfere=0.35,
                          on_program=lambda k, init, sts: monitor(ctx, k, init, sts))
 
 
